@@ -139,7 +139,7 @@ CONSTANTS MaxWeight, MaxMLayers
 VARIABLE mc
 MG(k, n, f1, f2, tl, tr) ==
   [k |-> k, ph |-> 0, bits |-> <<>>, dg |-> 0, sub |-> "", subdg |-> 0, re |-> 0, im |-> 0, s |-> 0,
-   n |-> n, f1 |-> f1, f2 |-> f2, tl |-> tl, tr |-> tr]
+   n |-> n, f1 |-> f1, f2 |-> f2, tl |-> tl, tr |-> tr, par |-> 0, pf |-> [c0 |-> 0, cx |-> 0, cy |-> 0]]
 PG(k, ph, dg) == [MG(k, 0, 0, 0, <<>>, <<>>) EXCEPT !.ph = ph, !.dg = dg]
 PKB(k, bits) == [MG(k, 0, 0, 0, <<>>, <<>>) EXCEPT !.bits = bits]
 MSC(k, re, im, s) == [MG(k, 0, 0, 0, <<>>, <<>>) EXCEPT !.re = re, !.im = im, !.s = s]
